@@ -28,9 +28,10 @@ ASSUMPTIONS = [
     "missing data is encoded as NaN on a complete index, whole local days at a time (hourly class: all hours of the day); "
     "absent rows and partially missing days are not enumerated near thresholds because the statement does not say how "
     "hours make up a valid day (month family of the hourly class uses hour-granular gaps for the per-month criteria only)",
-    "ambiguity bands (both verdicts accepted, counted in coverage.bands): hourly class truncated vs exact day totals; "
+    "ambiguity bands (both verdicts accepted, counted in coverage.bands): "
     "hourly temperature feed under a daily/billing meter (day grid vs hours of the feed); billing closing read (period sum N "
-    "vs daily grid N-1); off-cycle period counted as valid or as dropped; zones with DST (+-1 day on the counts of valid days; "
+    "vs daily grid N-1); off-cycle period counted as valid or as dropped; zones with DST, daily / billing rows (+-1/8 day on the counts of valid days: days counted vs real day lengths; the hourly class is "
+    "decided on exact hours / 24; "
     "the span itself is a number of calendar days and is decided exactly in every zone, also when it starts in one clock phase and "
     "ends in the other); "
     "months pooled by month number vs separate (year, month) when a span revisits a month",
